@@ -64,7 +64,7 @@ Within(q, lo, hi) == Le(I(lo), q) /\ Le(q, I(hi))
 InDocumentedRange(r) ==
     LET c == Qs(ColourRegs(r))
     IN  CASE r.mode = "rgb" -> ValidRgb(c) /\ Le(I(0), c[4])
-          [] r.mode = "logical" -> Within(c[2], 0, 100) /\ Within(c[3], 0, 100) /\ Le(I(0), c[4])
+          [] r.mode = "logical" -> Within(c[1], 0, 360) /\ Within(c[2], 0, 100) /\ Within(c[3], 0, 100) /\ Le(I(0), c[4])
           [] OTHER -> (\A j \in 1..3 : Within(c[j], 0, MaxRaw)) /\ Le(I(0), c[4])
 RegOk(r) == /\ AllNum(<<r.hue, r.saturation, r.brightness, r.kelvin, r.red, r.green, r.blue, r.duration>>)
             /\ (IsNum(r.time) \/ r.time.k = "pat")
